@@ -95,7 +95,9 @@ def handle : List String → Option String
     let len ← n.toNat?
     let ops' ← ops.mapM parseOp
     let (r, es, hl) := wsgiHeaders ops' len
-    pure (answer r es hl)
+    pure (match hl with
+      | some hl => answer r es hl
+      | Option.none => s!"wsgi-500 out={showOutcomes es} hl={showHeaders catchAllHeaders}")
   | _ => Option.none
 
 end Drv.Headers
